@@ -18,8 +18,10 @@ import GoldModel.Lemmas.ProgRoundTrip
   `forward` or `external "lib"` the method has NO body), `const c = literal [multiLang]`,
   `[memory] f : T [private|…]* [absolute x]`, `class aName [(aParent)]`, `module aName`, `uses a, b, …`,
   `type aName : T`;
-* types `T` (parameters, variables, fields, type declarations) — `Name`, `Name(n)`, `refTo|listOf Name [inverse x]`,
-  `lit to lit`, `[Name]`, `.Name`, `array|sequence [Name | lit to lit] [[…]] of Name`, `instanceOf Name`;
+* types `T` — `Name`, `Name(n)`, `refTo|listOf Name [inverse x]`, `lit to lit`, `[Name]`, `.Name`,
+  `array|sequence [Name | lit to lit] [[…]] of Name`, `instanceOf Name`, enumerations `( a, b = 1, … )` and sums
+  `A + ( … ) + B` of names and enumerations (these forms in parameters and record fields), and in variables, fields and
+  type declarations also `record [(Parent)] (name : T)* endrecord`, `proc [(params)]`, `func [(params)] return Name`;
 * programs — lists of declarations.
 
 `toks` prints to tokens (any positions, any spellings), `tree` is the intended tree — kinds, names,
@@ -166,6 +168,11 @@ func Beep return Int external 'user32.Beep'
 module aMod
 uses aLib, bLib
 type tName : CString(40)
+type tRec : record
+  kind : (red, green = 4) + tMore
+  next : .tRec
+endrecord
+type tCmp : func (a : tRec) return Int
 ```
 -/
 private def sample : Prog Ex :=
@@ -173,7 +180,7 @@ private def sample : Prog Ex :=
       (some (tk Kind.OBracket "(" 0 11, tk Kind.Identifier "aBar" 0 12, tk Kind.CBracket ")" 0 16)),
     .const (tk Kind.Const "const" 1 0) (tk Kind.Identifier "cMax" 1 6) (tk Kind.Equals "=" 1 11) (tk Kind.NumericLiteral "10" 1 13)
       (some (tk Kind.MultiLang "multiLang" 1 16)),
-    .field none (tk Kind.Identifier "count" 2 0) (tk Kind.Colon ":" 2 6) (.basic (tk Kind.Identifier "Int" 2 8))
+    .field none (tk Kind.Identifier "count" 2 0) (tk Kind.Colon ":" 2 6) (.flat (.basic (tk Kind.Identifier "Int" 2 8)))
       [tk Kind.Private "private" 2 12] (some (tk Kind.Absolute "absolute" 2 20, tk Kind.Identifier "other" 2 29)),
     .proc (tk Kind.Proc "proc" 3 0) (.plain (tk Kind.Identifier "Run" 3 5))
       (some (.cons (tk Kind.OBracket "(" 3 8)
@@ -184,9 +191,9 @@ private def sample : Prog Ex :=
         (tk Kind.CBracket ")" 3 44)))
       [.plain (tk Kind.Private "private" 3 46), .plain (tk Kind.Override "override" 3 54)]
       (some ([ .lvar (tk Kind.Var "var" 4 2) (tk Kind.Identifier "i" 4 6) (tk Kind.Colon ":" 4 8)
-                 (.array (tk Kind.Array "array" 4 10) ⟨tk Kind.OSqrBracket "[" 4 16, .range (tk Kind.NumericLiteral "1" 4 17)
+                 (.flat (.array (tk Kind.Array "array" 4 10) ⟨tk Kind.OSqrBracket "[" 4 16, .range (tk Kind.NumericLiteral "1" 4 17)
                     (tk Kind.To "to" 4 19) (tk Kind.NumericLiteral "9" 4 22), tk Kind.CSqrBracket "]" 4 23⟩ none
-                    (tk Kind.Of "of" 4 25) (tk Kind.Identifier "Int" 4 28)) none,
+                    (tk Kind.Of "of" 4 25) (tk Kind.Identifier "Int" 4 28))) none,
         .forS (tk Kind.For "for" 5 2) (tk Kind.Identifier "i" 5 6) (tk Kind.Equals "=" 5 8) (num "1" 5 10)
           (tk Kind.To "to" 5 12) (idt "n" 5 15) (some (tk Kind.Step "step" 5 17, num "2" 5 22))
           [ .ifS (tk Kind.If "if" 6 4) (.bin (idt "i" 6 7) (tk Kind.LessThan "<" 6 9) (idt "m" 6 11))
@@ -225,8 +232,22 @@ private def sample : Prog Ex :=
     .module (tk Kind.Module "module" 30 0) (tk Kind.Identifier "aMod" 30 7),
     .uses (tk Kind.Uses "uses" 31 0) (tk Kind.Identifier "aLib" 31 5) [(tk Kind.Comma "," 31 9, tk Kind.Identifier "bLib" 31 11)],
     .typeD (tk Kind.Type "type" 32 0) (tk Kind.Identifier "tName" 32 5) (tk Kind.Colon ":" 32 11)
-      (.sized (tk Kind.Identifier "CString" 32 13) (tk Kind.OBracket "(" 32 20) (tk Kind.NumericLiteral "40" 32 21)
-        (tk Kind.CBracket ")" 32 23)) ]
+      (.flat (.sized (tk Kind.Identifier "CString" 32 13) (tk Kind.OBracket "(" 32 20) (tk Kind.NumericLiteral "40" 32 21)
+        (tk Kind.CBracket ")" 32 23))),
+    .typeD (tk Kind.Type "type" 33 0) (tk Kind.Identifier "tRec" 33 5) (tk Kind.Colon ":" 33 10)
+      (.record (tk Kind.Record "record" 33 12) none
+        [⟨tk Kind.Identifier "kind" 34 2, tk Kind.Colon ":" 34 7,
+          .composed (.enum (tk Kind.OBracket "(" 34 9) ⟨tk Kind.Identifier "red" 34 10, none⟩
+            [(tk Kind.Comma "," 34 13, ⟨tk Kind.Identifier "green" 34 15, some (tk Kind.Equals "=" 34 21, tk Kind.NumericLiteral "4" 34 23)⟩)]
+            (tk Kind.CBracket ")" 34 24)) [(tk Kind.Plus "+" 34 26, .basic (tk Kind.Identifier "tMore" 34 28))]⟩,
+         ⟨tk Kind.Identifier "next" 35 2, tk Kind.Colon ":" 35 7, .pointer (tk Kind.Dot "." 35 9) (tk Kind.Identifier "tRec" 35 10)⟩]
+        (tk Kind.EndRecord "endrecord" 36 0)),
+    .typeD (tk Kind.Type "type" 37 0) (tk Kind.Identifier "tCmp" 37 5) (tk Kind.Colon ":" 37 10)
+      (.funcT (tk Kind.Func "func" 37 12)
+        (some (.cons (tk Kind.OBracket "(" 37 16)
+          ⟨none, tk Kind.Identifier "a" 37 17, tk Kind.Colon ":" 37 19, .basic (tk Kind.Identifier "tRec" 37 21)⟩ []
+          (tk Kind.CBracket ")" 37 25)))
+        (tk Kind.Return "return" 37 27) (tk Kind.Identifier "Int" 37 34)) ]
 
 /-- the sample is well formed, so the theorem applies to it … -/
 private theorem sample_wf : Prog.WF exSpec sample := (prog_wfb_iff sample).mp (by decide +kernel)
